@@ -134,7 +134,8 @@ def eval (f : FsCfg) (s : Sys) (c : Call) : List String :=
       let a := clean a
       let b := clean b
       t (existsPlain w b) "renameOntoExisting" ++
-      t (hasPrefix b (a ++ [slash])) "renameIntoSelf" ++
+      -- the caller may spell either name without its leading slash
+      t (hasPrefix (trimPrefix b [slash]) (trimPrefix a [slash] ++ [slash])) "renameIntoSelf" ++
       t (parentNotDir w b) "parentNotDir" ++
       t (isDirAt w a && likeDeviates w a) "likeDeviates" ++
       t (existsPlain w a && !existsPlain w b && moveCollides w a b) "moveOntoUsedKey"
